@@ -133,6 +133,10 @@ EdgeHandle TopologyKernel::add_edge(VertexHandle _fromVertex,
             }
         } else {
             for(int i = 0; i < (int)edges_.size(); ++i) {
+                if(is_deleted(EdgeHandle(i))) {
+                    // a deleted (but not yet garbage-collected) edge is not a duplicate
+                    continue;
+                }
                 if(edge(EdgeHandle(i)).from_vertex() == _fromVertex && edge(EdgeHandle(i)).to_vertex() == _toVertex) {
                     return EdgeHandle(i);
                 } else if(edge(EdgeHandle(i)).from_vertex() == _toVertex && edge(EdgeHandle(i)).to_vertex() == _fromVertex) {
